@@ -1,10 +1,35 @@
 SPEC = {
     'level': 'model_checking',
     'engine': 'E',
-    'technique': 'bounded-exhaustive enumeration of stub configurations x call tuples on the real library against an independent reference interpreter',
-    'claim': 'placeholder',
-    'note': 'placeholder',
+    'technique': 'bounded-exhaustive enumeration of well-formed stub configurations x call tuples, each installed and called on the real '
+                 'library (real calls to //go:noinline targets and (*When).Eval) and compared with an independent reference interpreter '
+                 'of the rule in the statement; violations are shrunk by deterministic re-execution to a minimal configuration + call',
+    'claim': 'for the 8 signatures f1(int), f2(int,string), f3(interface{},int), (*S).M(int,int), (S).V(int,int), v0(...int), '
+             'v1(int,...int), v2(string,int,...string): for every configuration default in {none, Return(d)} x clause list of length '
+             '<= 2 (quick) / <= 3 (thorough) over the clause alphabet, and every call tuple over {a,b,c} per parameter (variadic tails of '
+             'length 0..2, two receivers for methods), the real call and Eval return the result of the first-registered matching clause, '
+             'else the default, else panic with "no suitable condition"',
+    'note': 'bounded: three values per parameter type, clause atoms {a, b, Any(), In(a,b)}, variadic tails <= 2, In clauses with <= 2 '
+            'alternatives (two-alternative In only over plain values), reduced alphabets for the longest lists of v0/v1/v2 (see rule); '
+            'each clause has exactly one result (sequences are C05); a bare Return after a clause is outside the alphabet (DESIGN 3.7)',
     'jobs': [{'bin': 'c04', 'shards': 16}],
-    'rule': 'placeholder',
-    'assumptions': [],
+    'rule': 'engine E. Clause alphabets per signature: Q = When(e1..en) with ei in {a,b,Any(),In(a,b)} + In(one alternative over the same '
+            'atoms) + In(two alternatives over plain values a,b) + for v0 the typed-slice form In([]int{..}[, []int{..}]); W = Q without '
+            'two-alternative In; K = When/In(one alternative) over {a,Any()}; k = When over {a,Any()}; variadic clauses have tails of '
+            'length 0..2. Clause lists by length 0/1/2/3: quick f1,f2,f3,M,V,v0,v1: Q,Q,Q,-; v2: Q,Q,K,-; thorough f1,f2,f3,M,V: Q,Q,Q,Q; '
+            'v0: Q,Q,Q,W; v1: Q,Q,Q,K; v2: Q,Q,W,k. x default in {none, Return(1000)}; clause i returns 1001+i. A configuration without '
+            'default starts with a When clause (In is only reachable from a *When). Every configuration: fresh builder, configuration, '
+            'the whole call sweep in domain order (each tuple as a real call, then through Eval; for methods Eval is accepted with or '
+            'without the receiver), Reset, original-restored sanity check. evaluations = judged real calls + Evals (+1 per configuration '
+            'that panics while being set up); states = distinct (configuration, call) pairs; transitions = API operations + calls + Evals; '
+            'distinct_nontrivial = distinct configurations in which the implementation returned some clause result; samples = every '
+            '4096th configuration of a worker. Violation keys are grouped: signature, kind (panic / missed-match / false-match / '
+            'default-ignored / garbage-result), via (config / call / eval; eval only if the real call conforms), clause kinds, atom kinds '
+            'and alternative/call lengths of the minimised case.',
+    'assumptions': [
+        'a configuration without default whose first When leaves the variadic tail empty (fewer expressions than declared parameters, '
+        'which goom documents as not allowed at creation) is executed but not judged: the statement does not say whether it is well-formed',
+        'arguments of the interface{} parameter are 1, "b", 3 (pairwise different under any notion of equality); cross-type equality is C18',
+        'Eval is judged as "the same selection as a call with these arguments" (the statement speaks of calls; its observe_at lists When.Eval)',
+    ],
 }
